@@ -19,21 +19,47 @@ def letters(c):
 def a1(r, c):
     return letters(c) + str(r + 1)
 
+def is_cell_name(n):
+    """n, case-insensitively, is the A1 name of a cell of the sheet"""
+    i = 0
+    while i < len(n) and n[i].isascii() and n[i].isalpha():
+        i += 1
+    ls, ds = n[:i].upper(), n[i:]
+    if not (1 <= len(ls) <= 3 and 1 <= len(ds) <= 7 and ds.isascii() and ds.isdigit() and ds[0] != "0"):
+        return False
+    col = 0
+    for ch in ls:
+        col = col * 26 + ord(ch) - 64
+    return col <= MAX_COLS and int(ds) <= MAX_ROWS
+
 # ----------------------------------------------------------------------------- tokens
-# ("R", cabs, col, rabs, row) ("S", quoted, name) ("F", name) ("N", name)
-# ("M", ip, fp|None, ex|None) with ex = (neg, digits)   ("Q", s)  ("Y", ch)  ("E", k)
+# ("R", cabs, col, rabs, row)  ("C", a1, c1, a2, c2)  ("W", a1, r1, a2, r2)
+# ("S", quoted, name)  ("T", n1, n2)  ("F", name)  ("N", name)
+# ("M", ip, fp|None, ex|None) with ex = (sign, digits), sign = None | False (+) | True (-)
+# ("Q", s)  ("B", s)  ("Y", ch)  ("E", k)
 ERRS = ["#NULL!", "#DIV/0!", "#VALUE!", "#REF!", "#NAME?", "#NUM!", "#N/A"]
+
+def dl(a):
+    return "$" if a else ""
 
 def render(t):
     k = t[0]
     if k == "R":
         _, ca, c, ra, r = t
-        return ("$" if ca else "") + letters(c) + ("$" if ra else "") + str(r + 1)
+        return dl(ca) + letters(c) + dl(ra) + str(r + 1)
+    if k == "C":
+        _, x1, c1, x2, c2 = t
+        return dl(x1) + letters(c1) + ":" + dl(x2) + letters(c2)
+    if k == "W":
+        _, x1, r1, x2, r2 = t
+        return dl(x1) + str(r1 + 1) + ":" + dl(x2) + str(r2 + 1)
     if k == "S":
         return ("'" + t[2].replace("'", "''") + "'!") if t[1] else (t[2] + "!")
+    if k == "T":
+        return t[1] + ":" + t[2] + "!"
     if k == "F":
         return t[1] + "("
-    if k == "N":
+    if k in ("N", "B"):
         return t[1]
     if k == "M":
         _, ip, fp, ex = t
@@ -41,7 +67,7 @@ def render(t):
         if fp is not None:
             s += "." + fp
         if ex is not None:
-            s += "E" + ("-" if ex[0] else "+") + ex[1]
+            s += "E" + ("" if ex[0] is None else "-" if ex[0] else "+") + ex[1]
         return s
     if k == "Q":
         return '"' + t[1].replace('"', '""') + '"'
@@ -54,45 +80,65 @@ def render(t):
 def render_all(ts):
     return "".join(render(t) for t in ts)
 
+def mv(ab, x, d):
+    return x if ab else max(x + d, 0)
+
+def translate_tok(t, dr, dc):
+    k = t[0]
+    if k == "R":
+        _, ca, c, ra, r = t
+        return ("R", ca, mv(ca, c, dc), ra, mv(ra, r, dr))
+    if k == "C":
+        _, x1, c1, x2, c2 = t
+        return ("C", x1, mv(x1, c1, dc), x2, mv(x2, c2, dc))
+    if k == "W":
+        _, x1, r1, x2, r2 = t
+        return ("W", x1, mv(x1, r1, dr), x2, mv(x2, r2, dr))
+    return t
+
 def translate(ts, dr, dc):
-    out = []
-    for t in ts:
-        if t[0] == "R":
-            _, ca, c, ra, r = t
-            out.append(("R", ca, c if ca else max(c + dc, 0), ra, r if ra else max(r + dr, 0)))
-        else:
-            out.append(t)
-    return out
+    return [translate_tok(t, dr, dc) for t in ts]
+
+def comp_ok(ab, x, d, lim):
+    return x < lim and (ab or 0 <= x + d < lim)
+
+def tok_in_range(t, dr, dc):
+    k = t[0]
+    if k == "R":
+        return comp_ok(t[1], t[2], dc, MAX_COLS) and comp_ok(t[3], t[4], dr, MAX_ROWS)
+    if k == "C":
+        return comp_ok(t[1], t[2], dc, MAX_COLS) and comp_ok(t[3], t[4], dc, MAX_COLS)
+    if k == "W":
+        return comp_ok(t[1], t[2], dr, MAX_ROWS) and comp_ok(t[3], t[4], dr, MAX_ROWS)
+    return True
+
+def translate_clip(ts, dr, dc):
+    """what the code documents: a cell reference that would leave the sheet stays unchanged;
+    everything that is not a cell reference is copied"""
+    return [translate_tok(t, dr, dc) if t[0] == "R" and tok_in_range(t, dr, dc) else t for t in ts]
 
 def in_range(ts, dr, dc):
     if not (-MAX_ROWS < dr < MAX_ROWS and -MAX_COLS < dc < MAX_COLS):
         return False
-    for t in ts:
-        if t[0] == "R":
-            _, ca, c, ra, r = t
-            if not (c < MAX_COLS and r < MAX_ROWS):
-                return False
-            if not ca and not (0 <= c + dc < MAX_COLS):
-                return False
-            if not ra and not (0 <= r + dr < MAX_ROWS):
-                return False
-    return True
+    return all(tok_in_range(t, dr, dc) for t in ts)
 
 def hx(s):
     return s.encode("utf-8").hex()
 
 def wire_token(t):
     k = t[0]
-    if k == "R":
-        return "R%d%d:%d:%d" % (t[1], t[3], t[2], t[4])
+    if k in ("R", "C", "W"):
+        return "%s%d%d:%d:%d" % (k, t[1], t[3], t[2], t[4])
     if k == "S":
         return "S%d:%s" % (t[1], hx(t[2]))
-    if k in ("F", "N", "Q"):
+    if k == "T":
+        return "T:%s:%s" % (hx(t[1]), hx(t[2]))
+    if k in ("F", "N", "Q", "B"):
         return "%s:%s" % (k, hx(t[1]))
     if k == "M":
         _, ip, fp, ex = t
         return "M:%s:%s:%s" % (hx(ip), "-" if fp is None else hx(fp),
-                                "-" if ex is None else ("~" if ex[0] else "+") + hx(ex[1]))
+                                "-" if ex is None else ("=" if ex[0] is None else "~" if ex[0] else "+") + hx(ex[1]))
     if k == "Y":
         return "Y:%d" % ord(t[1])
     if k == "E":
@@ -102,121 +148,141 @@ def wire_token(t):
 def wire_tokens(ts):
     return ",".join(wire_token(t) for t in ts)
 
-# ----------------------------------------------------------------------------- formula generator
-FUNCS_SAFE = ["SUM", "IF", "MAX", "MIN", "AVERAGE", "VLOOKUP", "INDEX", "ROUND", "LOG", "ATAN", "DAYS360",
-              "_xlfn.STDEV.S", "IFERROR", "COUNTIFS", "T.DIST.2T", "DEC2BIN", "IMLOG10", "SUMXMY2", "N"]
-FUNCS_LOOKALIKE = ["LOG10", "ATAN2", "SUMX2MY2", "SUMX2PY2"]
-NAMES_SAFE = ["rate", "TRUE", "FALSE", "Total", "my_rate", "Sales.Total", "_x", "tax_rate", "AAAAA1", "Data2024"]
-NAMES_LOOKALIKE = ["my_A1", "Sales.Q1", "tax1", "x_B2", "AAAA1"]
-SHEETS_SAFE = [(0, "Sheet1"), (0, "Data"), (1, "My Sheet"), (1, "Bob's"), (0, "Sheet10"), (1, "2024 data"),
-               (0, "Data2024"), (1, "a \"b\" c")]
-SHEETS_LOOKALIKE = [(1, "Q1"), (1, "My Q1"), (1, "FY24"), (0, "P1x_Q2"), (1, "A1 B2")]
-SHEETS_OVERFLOW = [(0, "Revenue2024"), (1, "Accounts2023 v2"), (0, "Quarterly1")]
-SHEETS_QUOTE = [(1, 'a"b'), (1, 'x "y'), (1, '5" pipe')]
-NONASCII_STR = ["é", "naïve", "日本", "€5", "Ł1", "ǃƂ", "😀"]
+# ----------------------------------------------------------------------------- alphabets
+# function names: many end in letters+digits (cell look-alikes); all are followed by '('
+FUNCS = ["SUM", "IF", "MAX", "MIN", "AVERAGE", "VLOOKUP", "INDEX", "ROUND", "LOG", "ATAN", "DAYS360",
+         "_xlfn.STDEV.S", "IFERROR", "COUNTIFS", "T.DIST.2T", "DEC2BIN", "IMLOG10", "SUMXMY2", "N",
+         "LOG10", "ATAN2", "SUMX2MY2", "SUMX2PY2", "HEX2DEC", "BIN2HEX", "F.DIST", "_xlfn.XLOOKUP"]
+# defined / table names the grammar accepts (none is a cell name of the sheet)
+NAMES = ["rate", "TRUE", "FALSE", "Total", "my_rate", "Sales.Total", "_x", "tax_rate", "AAAAA1", "Data2024",
+         "my_A1", "Sales.Q1", "x_B2", "AAAA1", "XFE1", "A1048577", "A01", "ZZZ9", "Q1_", "_Q1", "A1.B2",
+         "\\name", "what?", "größe", "税率", "Año", "été1", "税A1", "ÉA1", "Ünï_1"]
+# names Excel refuses (they are cell names): outside the grammar, kept for the correspondence only
+NAMES_ILLEGAL = ["tax1", "Tbl1", "a1", "xfd1048576", "Ab12"]
+SHEETS = [(0, "Sheet1"), (0, "Data"), (1, "My Sheet"), (1, "Bob's"), (0, "Sheet10"), (1, "2024 data"),
+          (0, "Data2024"), (1, "a \"b\" c"), (1, "Q1"), (0, "Q1"), (1, "Q 1"), (1, "My Q1"), (1, "FY24"),
+          (0, "FY24"), (0, "P1x_Q2"), (1, "A1 B2"), (0, "Revenue2024"), (1, "Accounts2023 v2"),
+          (0, "Quarterly1"), (1, 'a"b'), (1, 'x "y'), (1, '5" pipe'), (1, "Données"), (0, "Données"),
+          (1, "シート1"), (0, "シート1"), (1, "Übersicht 1"), (1, "[1]Sheet1"), (1, "it''s"), (1, "€ 5 → 6"),
+          (1, "😀"), (0, "Лист1"), (1, "A1"), (0, "A1")]
+SHEET3D = [("Sheet1", "Sheet3"), ("Jan", "Dec"), ("Лист1", "Лист3"), ("Data_1", "Data_9")]
+SHEET3D_CELL = [("Q1", "Q3"), ("FY24", "FY26"), ("a1", "a3"), ("Q1", "Sheet9")]
+STRINGS = ["", "A1", "x", "B2:C3", 'say "hi"', "a,b", "$A$1+1", "LOG10(", "'Q1'!A1", "100%", "it's",
+           "A1 \"\" B1", "é", "naïve", "日本", "€5", "Ł1", "ǃƂ", "😀", "[A1", "A1]", "\"", "\"\"", "'", "a b",
+           "éA1", "Q1:Q3!A1"]
+BRACKS = ["[1]", "[Col]", "[[#This Row],[Col A1]]", "[@[Unit Price]]", "[[#Headers],[A1]:[B2]]", "[#All]",
+          "[@A1]", "[[A1]]", "[Größe A1]", "[[#Data],[Q1]]", "[2]"]
+TABLES = ["Table1", "Sales_2024", "Tbl_1", "T1x"]
 OPS = ["+", "-", "*", "/", "^", "&", "=", "<", ">", "<=", ">=", "<>"]
+
+def nonascii_chars():
+    s = set()
+    for group in (NAMES, NAMES_ILLEGAL, [n for _, n in SHEETS], STRINGS, BRACKS, TABLES,
+                  [x for p in SHEET3D + SHEET3D_CELL for x in p], RAW_EXTRA):
+        for w in group:
+            s.update(ch for ch in w if ord(ch) >= 128)
+    return sorted(s)
+
+RAW_EXTRA = ["é", "Ł", "日", "ǃ", "Ƃ", "😀", "€", "→", "́", " ", "٢", "Ⅷ", "²", "ª", " ", "Я"]
 
 def sym_tokens(s):
     return [("Y", ch) for ch in s]
 
 class FormulaGen:
-    """formulas from the grammar; `stream` selects a known class to visit (None = known-free)"""
-    def __init__(self, rng, base=(0, 0), span=12, stream=None, abs_ok=True, mixed_ok=False):
+    """formulas from the grammar; `stream` selects a known class to visit (None = known-free):
+    "whole" = whole-column / whole-row ranges, "sheet3d" = unquoted 3-D prefix with a cell-like
+    first name; "illegal" = names outside the grammar (correspondence only)"""
+    def __init__(self, rng, base=(0, 0), span=12, stream=None):
         self.rng, self.base, self.span, self.stream = rng, base, span, stream
-        self.abs_ok, self.mixed_ok = abs_ok, mixed_ok
         self.used_stream = False
 
     def ref(self):
         rng = self.rng
         r = min(max(self.base[0] + rng.randrange(-2, self.span), 0), MAX_ROWS - 1)
         c = min(max(self.base[1] + rng.randrange(-2, self.span), 0), MAX_COLS - 1)
-        if rng.random() < 0.04:
-            r = rng.choice([0, MAX_ROWS - 1, 99999, 999999])
-        if rng.random() < 0.04:
-            c = rng.choice([0, MAX_COLS - 1, 25, 26, 701, 702])
-        ca = ra = 0
-        if self.stream == "mixed" and (not self.used_stream or rng.random() < 0.3):
-            ca, ra = rng.choice([(0, 1), (1, 0)])
-            self.used_stream = True
-        elif self.abs_ok and rng.random() < 0.25:
-            if self.mixed_ok and rng.random() < 0.5:
-                ca, ra = rng.choice([(0, 1), (1, 0)])
-            else:
-                ca = ra = 1
+        if rng.random() < 0.05:
+            r = rng.choice([0, MAX_ROWS - 1, MAX_ROWS - 2, 99999, 999999, 9, 10])
+        if rng.random() < 0.05:
+            c = rng.choice([0, MAX_COLS - 1, MAX_COLS - 2, 25, 26, 701, 702])
+        ca, ra = rng.choice([(0, 0), (0, 0), (0, 0), (1, 1), (0, 1), (1, 0)])
         return ("R", ca, c, ra, r)
+
+    def whole(self):
+        rng = self.rng
+        flags = rng.choice([(0, 0), (0, 0), (1, 0), (0, 1), (1, 1)])
+        if self.stream != "whole":
+            flags = (1, 1)
+        else:
+            self.used_stream = True
+        if rng.random() < 0.5:
+            c1 = min(max(self.base[1] + rng.randrange(-2, self.span), 0), MAX_COLS - 1)
+            return ("C", flags[0], c1, flags[1], min(c1 + rng.randrange(0, 3), MAX_COLS - 1))
+        r1 = min(max(self.base[0] + rng.randrange(-2, self.span), 0), MAX_ROWS - 1)
+        return ("W", flags[0], r1, flags[1], min(r1 + rng.randrange(0, 3), MAX_ROWS - 1))
 
     def sheet_prefix(self):
         rng = self.rng
-        if self.stream in ("lookalike", "overflow", "quote", "nonascii") and not self.used_stream and rng.random() < 0.5:
+        if self.stream == "sheet3d" and (not self.used_stream or rng.random() < 0.3):
             self.used_stream = True
-            if self.stream == "nonascii":
-                return ("S", 1, rng.choice(["Données", "シート1", "Übersicht 1"]))
-            q, n = rng.choice({"lookalike": SHEETS_LOOKALIKE, "overflow": SHEETS_OVERFLOW,
-                               "quote": SHEETS_QUOTE}[self.stream])
-            return ("S", q, n)
-        q, n = rng.choice(SHEETS_SAFE)
+            return ("T",) + rng.choice(SHEET3D_CELL)
+        if rng.random() < 0.08:
+            return ("T",) + rng.choice(SHEET3D)
+        q, n = rng.choice(SHEETS)
         return ("S", q, n)
 
     def operand(self, depth):
         rng = self.rng
         x = rng.random()
-        if x < 0.38:
+        if x < 0.36:
             ts = [self.ref()]
             if rng.random() < 0.25:
                 ts += [("Y", ":"), self.ref()]
+            if rng.random() < 0.25:
+                ts = [self.sheet_prefix()] + ts
+                if rng.random() < 0.15:
+                    ts = [("B", rng.choice(["[1]", "[2]"]))] + ts
+            return ts
+        if x < 0.40 or (self.stream == "whole" and not self.used_stream and x < 0.6):
+            ts = [self.whole()]
             if rng.random() < 0.2:
                 ts = [self.sheet_prefix()] + ts
             return ts
-        if x < 0.50:
+        if x < 0.51:
             return [self.number()]
-        if x < 0.60:
-            return [self.string()]
-        if x < 0.68:
+        if x < 0.61:
+            return [("Q", rng.choice(STRINGS))]
+        if x < 0.69:
             return [self.name()]
-        if x < 0.72:
+        if x < 0.73:
             return [("E", rng.randrange(7))]
-        if x < 0.80 or depth <= 0:
+        if x < 0.78:
+            ts = [("B", rng.choice(BRACKS[1:]))]
+            if rng.random() < 0.7:
+                ts = [("N", rng.choice(TABLES))] + ts
+            return ts
+        if x < 0.84 or depth <= 0:
             return [("Y", "(")] + self.expr(depth - 1) + [("Y", ")")]
-        # function call
         args = []
         for i in range(rng.randrange(1, 4)):
             if i:
                 args += [("Y", ",")] + ([("Y", " ")] if rng.random() < 0.2 else [])
             args += self.expr(depth - 1)
-        return [("F", self.func())] + args + [("Y", ")")]
-
-    def func(self):
-        if self.stream == "lookalike" and not self.used_stream and self.rng.random() < 0.6:
-            self.used_stream = True
-            return self.rng.choice(FUNCS_LOOKALIKE)
-        return self.rng.choice(FUNCS_SAFE)
+        return [("F", rng.choice(FUNCS))] + args + [("Y", ")")]
 
     def name(self):
-        if self.stream == "lookalike" and not self.used_stream and self.rng.random() < 0.6:
+        if self.stream == "illegal" and (not self.used_stream or self.rng.random() < 0.3):
             self.used_stream = True
-            return ("N", self.rng.choice(NAMES_LOOKALIKE))
-        if self.stream == "nonascii" and not self.used_stream and self.rng.random() < 0.4:
-            self.used_stream = True
-            return ("N", self.rng.choice(["größe", "税率", "Año"]))
-        return ("N", self.rng.choice(NAMES_SAFE))
+            return ("N", self.rng.choice(NAMES_ILLEGAL))
+        return ("N", self.rng.choice(NAMES))
 
     def number(self):
         rng = self.rng
-        if self.stream == "overflow" and not self.used_stream and rng.random() < 0.6:
-            self.used_stream = True
-            return ("M", rng.choice(["1000000000", "12345678901", "4294967296"]), None, None)
-        ip = str(rng.choice([0, 1, 2, 10, 100, 365, 1024, 999999999, rng.randrange(10 ** rng.randrange(1, 10))]))
+        ip = str(rng.choice([0, 1, 2, 10, 100, 365, 1024, 999999999, 1000000000, 12345678901, 4294967296,
+                             rng.randrange(10 ** rng.randrange(1, 10))]))
         fp = str(rng.randrange(1000)) if rng.random() < 0.3 else None
-        ex = (rng.random() < 0.5, str(rng.randrange(1, 300))) if rng.random() < 0.15 else None
+        ex = (rng.choice([None, None, False, True]), str(rng.choice([5, 1, 10, 300, rng.randrange(1, 300)]))) \
+            if rng.random() < 0.3 else None
         return ("M", ip, fp, ex)
-
-    def string(self):
-        rng = self.rng
-        if self.stream == "nonascii" and not self.used_stream and rng.random() < 0.7:
-            self.used_stream = True
-            return ("Q", rng.choice(NONASCII_STR))
-        return ("Q", rng.choice(["", "A1", "x", "B2:C3", 'say "hi"', "a,b", "$A$1+1", "LOG10(", "'Q1'!A1",
-                                 "100%", "it's", "A1 \"\" B1"]))
 
     def expr(self, depth):
         rng = self.rng
@@ -239,12 +305,9 @@ class FormulaGen:
             ts = self.expr(2)
             if self.stream is None or self.used_stream:
                 return ts
-        # force one item of the stream
-        extra = {"mixed": lambda: [self.ref()],
-                 "lookalike": lambda: [("F", "LOG10"), self.ref(), ("Y", ")")],
-                 "nonascii": lambda: [("Q", "é")],
-                 "quote": lambda: [("S", 1, 'a"b'), self.ref()],
-                 "overflow": lambda: [("M", "1000000000", None, None)]}[self.stream]
+        extra = {"whole": lambda: [("F", "SUM"), self.whole(), ("Y", ")")],
+                 "sheet3d": lambda: [self.sheet_prefix(), self.ref()],
+                 "illegal": lambda: [self.name()]}[self.stream]
         self.used_stream = False
         return ts + [("Y", "+")] + extra()
 
@@ -356,7 +419,7 @@ def parse_range_text(s):
     """inverse of range_text: {(r,c): hex} or None when s is not a range"""
     if s == "R[-]":
         return {}
-    if not (s.startswith("R[") and s.endswith("]") and "|" in s):
+    if not (s and s.startswith("R[") and s.endswith("]") and "|" in s):
         return None
     head, body = s[2:-1].split("|", 1)
     r0, c0, r1, c1 = (int(x) for x in head.split(","))
